@@ -229,17 +229,7 @@ def main():
             mism.append(dict(fam=fam, kind='python-twin-as-operand', op='operators'))
     except Exception as e:
         mism.append(dict(fam=fam, kind='python-twin-as-operand-raises', real=repr(e)[:120]))
-    items1 = (key(1),) if False else None
-    for cls_, pycls, mk in ((BU, PBU, lambda c: c({key(1): val(1)})), (SE, PSE, lambda c: c([key(1)]))):
-        st = mk(cls_).__getstate__()[0]
-        for label, nxt in (('python-twin', mk(pycls)), ('int', 42), ('other-kind', SE([key(1)]) if cls_ is BU else BU({key(1): val(1)}))):
-            b = cls_()
-            try:
-                b.__setstate__((st, nxt))
-                mism.append(dict(fam=fam, kind='successor-accepted', container=cls_.__name__, what=label))
-            except TypeError:
-                pass
-            counts['junk_states'] = counts.get('junk_states', 0) + 1
+    # (the successor named in a leaf state is not checked by the code: conflict resolution hands reference stubs there)
     for tcls, lcls, plcls in ((BT, BU, PBU), (TS, SE, PSE)):
         l0 = lcls({key(1): val(1)}) if lcls is BU else lcls([key(1)])
         l1 = lcls({key(3): val(3)}) if lcls is BU else lcls([key(3)])
